@@ -24,7 +24,7 @@ EXTENDS Scope, Json, SequencesExt
 
 CONSTANTS MaxLen,      \* items after which the program only winds down
           Deep,        \* TRUE: descend to MaxDepth before any scope is closed (deep-nesting programs)
-          Feat         \* set of enabled features: "macro","label","proto","for","fwd","func","funcx","stmt"
+          Feat         \* set of enabled features: "macro","label","proto","for","fwd","func","funcx","stmt","linkage"
 
 VARIABLES stack,       \* scope ids, innermost last
           kinds,       \* parallel to stack: "file" "func" "block" "for" "forbody" "proto"
@@ -70,6 +70,12 @@ MacroId(n) == DGet(macros, n)
 ObjMacroOn(n) == MacroId(n) # NULL /\ ent[MacroId(n)] = "macro"
 FnMacroOn(n) == MacroId(n) # NULL /\ ent[MacroId(n)] = "fmacro"
 
+\* identity of the entity with linkage spelled n, if the program has declared one so far
+LinkId(n) ==
+  IF DHas(sc[FileScope].decl, n) /\ ent[sc[FileScope].decl[n]] \in {"obj", "xobj", "xfunc"} THEN sc[FileScope].decl[n]
+  ELSE LET S == {i \in 1..Len(prog) : prog[i].op = "decl" /\ prog[i].name = n /\ prog[i].kind \in {"xobj", "xfunc"}}
+       IN IF S = {} THEN NULL ELSE prog[CHOOSE i \in S : \A j \in S : i <= j].id
+
 Emit1(item) == prog' = Append(prog, item)
 Same(vs) == UNCHANGED vs
 
@@ -83,9 +89,29 @@ DeclOrd(n, k) ==
   /\ ~done /\ Room /\ ItemOK
   /\ IF InProto THEN k \in {"param", "enum"} ELSE IF ExprCtx THEN k = "enum" ELSE k \in {"obj", "typedef", "enum"}
   /\ ~DHas(sc[top].decl, n) /\ ~ObjMacroOn(n)
+  /\ kind = "file" => LinkId(n) = NULL       \* a file-scope declaration after a block-scope `extern` of the spelling: not generated
   /\ PutAs(top, "decl", n, NewId)
   /\ ent' = Append(ent, k)
   /\ Emit1([op |-> "decl", ns |-> "decl", kind |-> k, name |-> n, id |-> NewId])
+  /\ Same(<<nsc, nid, stack, kinds, macros, labels, gotos, incomplete, down, done>>)
+  /\ since' = since + 1
+
+\* Declarations WITH LINKAGE (6.2.2): `extern char n[..];` (xobj) and the function declaration (xfunc), at file scope
+\* or in any block.  All linked declarations of a spelling denote ONE entity (a file-scope object definition is
+\* that entity too), so they share one identity; what a block-scope one adds is a new BINDING in its scope: from
+\* there to the end of the block the name denotes the linked entity again, even if a local or parameter of an
+\* enclosing scope hides the file-scope declaration (6.2.1p4).
+DeclLinked(n, k) ==
+  /\ ~done /\ Room /\ F("linkage") /\ PlainCtx /\ ~InProto
+  /\ k \in {"xobj", "xfunc"}
+  /\ ~DHas(sc[top].decl, n) /\ ~ObjMacroOn(n)
+  /\ LET l == LinkId(n) IN
+       /\ IF l # NULL THEN (IF k = "xobj" THEN ent[l] \in {"obj", "xobj"} ELSE ent[l] = "xfunc")
+                      ELSE ~DHas(sc[FileScope].decl, n)
+       /\ LET id == IF l # NULL THEN l ELSE NewId IN
+            /\ PutAs(top, "decl", n, id)
+            /\ ent' = IF l # NULL THEN ent ELSE Append(ent, k)
+            /\ Emit1([op |-> "decl", ns |-> "decl", kind |-> k, name |-> n, id |-> id])
   /\ Same(<<nsc, nid, stack, kinds, macros, labels, gotos, incomplete, down, done>>)
   /\ since' = since + 1
 
@@ -340,6 +366,7 @@ Turn ==                     \* Deep: bottom reached or no way further down: star
 
 CNext ==
   \/ \E n \in Names, k \in {"obj", "typedef", "enum", "param"} : DeclOrd(n, k)
+  \/ \E n \in Names, k \in {"xobj", "xfunc"} : DeclLinked(n, k)
   \/ \E n \in Names, k \in {"struct", "union"}, f \in BOOLEAN : DeclTag(n, k, f)
   \/ \E n \in Names : CompleteTag(n) \/ UseOrd(n) \/ UseCall(n) \/ UseTag(n) \/ Undef(n) \/ Label(n) \/ Goto(n) \/ OpenFor(n)
   \/ \E n \in Names, fl \in BOOLEAN : Define(n, fl)
